@@ -19,7 +19,7 @@ PROP = {
     ],
 }
 TEXT = {
-    "text": "Coq theorems over all field values and all byte strings: per structure decode(encode x) = x, refusal of every other length, encode(decode b) = b, explicit little-endian layout, signing bytes = ASCII structure name ++ fields and injective in the signed fields; pairwise disjointness of the six signing-byte languages for all field values; stream decoder of weekly statistics returns the exact consumed length, decodes concatenations of k records, refuses truncations and (after the D15 repair, commit f245dd2) is total: never fatal, fuel never exhausted; client server map round-trips as a finite map for every entry order; a generic theorem turns every well-formed (offset,width,field,kind) layout into a codec and the layouts of the fixed-width Go functions, re-extracted by go/ast on every run, are proved equal to the documented ones; the reference codecs are compared with the real encoders/decoders (bytes, accepted/refused, consumed lengths) on boundary and random values, lengths K-2..K+2, streams of 0..3 records, maps with locations 0..65535; the real glow.Verify is tested on all single-bit flips. Added after seeded-change rounds: -0.0 and subnormals produced deterministically with an implementation-only round-trip and layout oracle for statistics records, the (r, n-s) twin of every test signature, suite tornfiles, and a second layout translator that recovers fixed-width layouts from the compiled functions by bit probing.",
+    "text": "Coq theorems over all field values and all byte strings: per structure decode(encode x) = x, refusal of every other length, encode(decode b) = b, explicit little-endian layout, signing bytes = ASCII structure name ++ fields and injective in the signed fields; pairwise disjointness of the six signing-byte languages for all field values; stream decoder of weekly statistics returns the exact consumed length, decodes concatenations of k records, refuses truncations and (after the D15 repair, commit f245dd2) is total: never fatal, fuel never exhausted; client server map round-trips as a finite map for every entry order; a generic theorem turns every well-formed (offset,width,field,kind) layout into a codec and the layouts of the fixed-width Go functions, re-extracted by go/ast on every run, are proved equal to the documented ones; the reference codecs are compared with the real encoders/decoders (bytes, accepted/refused, consumed lengths) on boundary and random values, lengths K-2..K+2, streams of 0..3 records, maps with locations 0..65535; the real glow.Verify is tested on all single-bit flips. Added after seeded-change rounds: -0.0 and subnormals produced deterministically with an implementation-only round-trip and layout oracle for statistics records, the (r, n-s) twin of every test signature, suite tornfiles, and a second layout translator that recovers fixed-width layouts from the compiled functions by bit probing. Round 5: stream counts whose size wraps in 32 bits (133021, 2^27, 266042) in the child process; JSON transport through the real endpoint (POST authorize-equipment, GET equipment) with the longest documents the type has.",
     "note": "Trusted: Coq kernel + vm_compute, the layout translator, the harness (generators, run-length encoding of long byte strings, child-process runner). Modelled, not verified: secp256k1/Keccak (arbitrary verify with a binding hypothesis), encoding/json, the Go allocator (memlimit parameter). Authorized-server locations above 255 bytes are outside the proved domain (two refuted statements exhibit the truncation).",
     "technique": "Coq proof (structural induction over byte lists, generic layout interpreter proved once + vm_compute on regenerated layouts) + differential correspondence (vm_compute) + known-answer vectors + real-crypto bit-flip oracle",
 }
